@@ -11,11 +11,12 @@ ID = "C20"
 LEVEL = "model_checking"
 EARLY_POOL_PATCH = True
 
-SERIAL = ["c1", "c2", "c3", "c22", "c6", "c8", "x8", "c3x1", "c2x2", "c3z", "c2x2z", "c3p", "x1", "x3", "x22", "x6", "x3x1", "x2x2", "x3p", "x2x2p"]
+SERIAL = ["c1", "c2", "c3", "c22", "c6", "c8", "x8", "c3x1", "c2x2", "c3z", "c2x2z", "c3p", "x1", "x3", "x22", "x6", "x3x1", "x2x2", "x3p", "x2x2p",
+          "x3big", "c3big", "x1300", "c1300", "c3nt"]
 POOLED = {
-    "quick": [("c3", 2, "line", 1), ("x3", 2, "line", 1), ("c22", 3, "line", 0), ("x22", 2, "line", 0), ("c3", 1, "line", 0), ("c3z", 2, "line", 0), ("x3p", 2, "line", 0), ("c8", 1, "line", 0), ("x8", 1, "line", 0), ("c8", 2, "line", 0)],
+    "quick": [("c3", 2, "line", 1), ("x3", 2, "line", 1), ("c22", 3, "line", 0), ("x22", 2, "line", 0), ("c3", 1, "line", 0), ("c3z", 2, "line", 0), ("x3p", 2, "line", 0), ("c8", 1, "line", 0), ("x8", 1, "line", 0), ("c8", 2, "line", 0), ("c3nt", 2, "line", 0)],
     "thorough": [("c3", 2, "line", 1), ("x3", 2, "line", 1), ("c3", 3, "line", 1), ("x3", 3, "line", 1), ("c22", 2, "line", 1), ("x22", 2, "line", 1),
-                 ("c2x2", 3, "line", 1), ("x2x2", 2, "line", 1), ("c3", 2, "instruction", 1), ("x3", 2, "instruction", 1), ("c3", 2, "line", 2), ("c3", 1, "line", 0), ("x3", 16, "line", 1), ("c3z", 2, "line", 1), ("c2x2z", 2, "line", 1), ("x3p", 2, "line", 1), ("c3p", 3, "line", 1), ("c8", 1, "line", 0), ("x8", 1, "line", 0), ("c8", 2, "line", 1), ("x8", 2, "line", 0)],
+                 ("c2x2", 3, "line", 1), ("x2x2", 2, "line", 1), ("c3", 2, "instruction", 1), ("x3", 2, "instruction", 1), ("c3", 2, "line", 2), ("c3", 1, "line", 0), ("x3", 16, "line", 1), ("c3z", 2, "line", 1), ("c2x2z", 2, "line", 1), ("x3p", 2, "line", 1), ("c3p", 3, "line", 1), ("c8", 1, "line", 0), ("x8", 1, "line", 0), ("c8", 2, "line", 1), ("x8", 2, "line", 0), ("c3nt", 2, "line", 1)],
 }
 
 
@@ -194,7 +195,7 @@ def run_pooled(args):
         sched.install(gran)
         stats = {}
         body = pooled_body(h, w, at, exc)
-        v = sched.explore(body, pooled_check(h, at), bound, stats=stats)
+        v = sched.explore(body, pooled_check(h, at), max(bound, 0), stats=stats, limit=1 if bound < 0 else None)
         if v and v.get("kind") == "diverged":
             return {"error": "schedule replay diverged: %s" % v["detail"]}
         if v:
@@ -224,6 +225,8 @@ def main(tier, all_violations=False, t0=None):
     for h in SERIAL:
         k = harness.subcubes(h)
         ats = [()] + [(i,) for i in range(k)] + [(i, j) for i in range(k) for j in range(i + 1, k)][:6] + [(k,), (k + 3,)]
+        if k > 50:
+            ats = [(), (0,), (1,), (k // 2,), (k - 2,), (k - 1,), (k,)]
         for at in ats:
             serial_cases += 1
             v = serial_case(h, at)
@@ -231,7 +234,7 @@ def main(tier, all_violations=False, t0=None):
                 viol = v
         # every other exception class, at every single invocation
         for exc in EXC_ALT:
-            for i in range(k):
+            for i in (range(k) if k <= 50 else (0, k - 1)):
                 serial_cases += 1
                 v = serial_case(h, (i,), exc)
                 if v and viol is None:
@@ -249,6 +252,11 @@ def main(tier, all_violations=False, t0=None):
         for at in subsets:
             tasks.append((h, w, gran, bound, at))
     # every other exception class in pooled mode: every single invocation, default schedule and schedules with one preemption on the small harnesses
+    # scale harnesses in pooled mode: the default schedule only (bound -1), no interrupt / first / last invocation
+    for h, w in (("x3big", 2), ("c3big", 2), ("x1300", 2), ("c1300", 3)):
+        k = harness.subcubes(h)
+        for at in ((), (0,), (k - 1,)):
+            tasks.append((h, w, "line", -1, at))
     for h, w, bound in (("c3", 2, 1), ("x3", 2, 1), ("c8", 2, 0), ("x8", 2, 0), ("x3", 1, 0), ("c3", 1, 0)):
         k = harness.subcubes(h)
         for exc in EXC_ALT:
